@@ -221,7 +221,19 @@ func c15Variants(name string) []string {
 			mixed[i] -= 32
 		}
 	}
-	return []string{strings.ToUpper(name), strings.ToLower(name), string(mixed)}
+	out := []string{strings.ToUpper(name), strings.ToLower(name), string(mixed)}
+	// every single letter in the other case: one lower-case letter in an upper-case name and the reverse
+	up, lo := []byte(strings.ToUpper(name)), []byte(strings.ToLower(name))
+	for i := range up {
+		if up[i] >= 'A' && up[i] <= 'Z' {
+			a := append([]byte(nil), up...)
+			a[i] += 32
+			b := append([]byte(nil), lo...)
+			b[i] -= 32
+			out = append(out, string(a), string(b))
+		}
+	}
+	return out
 }
 
 func c15Expect(ref *spec.OXMField, gotWidth int) (width int, ok bool) {
